@@ -1272,4 +1272,9 @@ class Server(utils.EventEmitter):
             )
             return
 
+        if pending_confirmation.done():
+            # Already confirmed: a duplicate confirmation needs no answer either
+            logger.warning('!!! duplicate confirmation')
+            return
+
         pending_confirmation.set_result(None)
